@@ -734,8 +734,10 @@ class BaseProperty(base.BaseObject):
         if self.unit is None and other.unit is not None:
             self.unit = other.unit
 
+        # merge_check has already established that dtypes and values are compatible;
+        # the dtype guessing of a strict extend must not abort a half done merge.
         to_add = [v for v in other.values if v not in self._values]
-        self.extend(to_add, strict=strict)
+        self.extend(to_add, strict=False)
 
     def unmerge(self, other):
         """
